@@ -189,7 +189,9 @@ fn render_callback_module(idx: usize, sd: &SubjectDef) -> String {
                     2 => (format!("callback = {f}"), 1),
                     3 => (format!("callback = |lex| {f}(lex)"), 1),
                     4 => (grouped, 0),
-                    _ => (format!("callback = {grouped}"), 1),
+                    5 => (format!("callback = {grouped}"), 1),
+                    // form 6: the same named argument written without blanks (`=` glued to the closure's `|`)
+                    _ => (format!("callback=|lex| {f}(lex)"), 1),
                 }
             })
         };
@@ -386,6 +388,15 @@ pub fn path_defs() -> Vec<SubjectDef> {
         core(false, vec![], vec![vec![brx(b"\\x01(?s-u:.){4}")], vec![brx(b"\\x02(?s-u:.){2}z")], vec![tok("a")], vec![brx(b"\\x03(?s-u:.)(?s-u:.)(?s-u:.)\\x03")]], false),
         // non-ASCII literals and classes whose near misses share lead / continuation bytes
         core(true, vec![rx(" ")], vec![vec![rx("\\$[α-ω]+")], vec![tok("é")], vec![tok("€")], vec![tok("😀")], vec![rx("x+é")], vec![rx("[一-龥]+")]], true),
+        // self loops over "every byte but one / two" (byte mode): the widest loop classes, with text after the loop
+        core(false, vec![rx(" ")], vec![vec![brx(b"<(?-u:[^>])*>!")], vec![rx("[a-z]+")], vec![tok("<")], vec![brx(b"\\{(?-u:[^{}])+\\}")], vec![tok("!")]], false),
+        // self loop over "ASCII but one char" in str mode next to patterns for the non-ASCII rest
+        core(true, vec![rx(" ")], vec![vec![rx("\"[\\x00-\\x7f&&[^\"]]*\"")], vec![rx("[^\\x00-\\x7f]+")], vec![tok("\"")], vec![rx("#[[:ascii:]&&[^;]]+;?")]], false),
+        // one leaf with a look-ahead branch (late accept) and non-extendable multi-byte branches that a lower-priority leaf
+        // matches as well (early accept with the same edges): the two kinds of accept must stay apart
+        core(true, vec![rx(" ")], vec![vec![pr(rx("[0-9]+(?-u:\\b)|π|∞"), 10)], vec![pr(rx("\\p{Greek}|[∞∑∏√]"), 2)], vec![pr(rx("[a-z]+"), 3)], vec![pr(rx("é+$|€"), 9)], vec![pr(rx("[€-₿]"), 1)]], false),
+        // Unicode-aware negated class loop lexing arbitrary bytes (utf8 = false): invalid sequences end the loop
+        core(false, vec![], vec![vec![rx("[^;§]+")], vec![tok(";")], vec![tok("§")], vec![brx(b"(?-u:[\\x80-\\xff])")]], false),
     ]
 }
 
@@ -400,7 +411,7 @@ pub fn table_defs() -> Vec<SubjectDef> {
         for ret in 0u8..=10 {
             let letter = (b'a' + ret) as char;
             let mut p = PatSpec::regex(LitSpec::str(format!("{letter}[0-9]{{1,2}}")));
-            p.callback = Some(CbSpec { ret, salt: salt0 + ret as u32, bump: if ret % 5 == 4 { 1 } else { 0 }, form: ret % 6 });
+            p.callback = Some(CbSpec { ret, salt: salt0 + ret as u32, bump: if ret % 5 == 4 { 1 } else { 0 }, form: ret % 7 });
             variants.push(vec![p]);
         }
         variants.push(vec![PatSpec::token(LitSpec::str("z"))]);
@@ -441,7 +452,7 @@ pub fn table_defs() -> Vec<SubjectDef> {
         for ret in 11u8..=15 {
             let letter = (b'a' + ret) as char;
             let mut p = PatSpec::regex(LitSpec::str(format!("{letter}[0-9]{{1,2}}")));
-            p.callback = Some(CbSpec { ret, salt: salt0 + ret as u32, bump: if ret == 13 { 1 } else { 0 }, form: ret % 6 });
+            p.callback = Some(CbSpec { ret, salt: salt0 + ret as u32, bump: if ret == 13 { 1 } else { 0 }, form: ret % 7 });
             variants.push(vec![p]);
         }
         variants.push(vec![PatSpec::token(LitSpec::str("z"))]);
